@@ -208,6 +208,9 @@ class Data(Entity):
 
         self._association = value
 
+        if getattr(self, "_on_file", False):
+            self.workspace.update_attribute(self, "attributes")
+
     @property
     def modifiable(self) -> bool:
         """
